@@ -17,4 +17,6 @@ for d in sorted(x for x in os.listdir(root) if os.path.isdir(os.path.join(root, 
                     labs.append((h, lab))
     clean = lambda t, n: re.sub(r"\s+", " ", (t or "")).replace("|", "/")[:n]
     caught = "; ".join(f"`{h}`: {lab}" for h, lab in labs[:2]) if c.get("caught") else "**not caught**"
+    if str(m.get("status", "")).startswith("superseded"):
+        caught = "superseded: no longer breaks the property since the repair it led to (see meta.json)"
     print(f"| {d} | {clean(m.get('summary'), 230)} | {clean(m.get('needs'), 200)} | {caught} |")
